@@ -36,6 +36,8 @@ structure RibSt where
   /-- the latest ADD / REPLACE submitted under each id (what a held id stands for: a DELETE is
   never held, so a DELETE that reuses the id of a held operation does not replace it here) -/
   adds : Map Nat Op := []
+  /-- the ids held when a flush ran (checked at the next observation of the held list) -/
+  pendBeforeFlush : Option (List Nat) := none
   /-- fold of the implementation's own acknowledgements (C01 monitor) -/
   spec : Map EKey Payload := []
   implEnts : Map EKey Payload := []
@@ -182,7 +184,7 @@ def handleDel (st : RibSt) (op : Op) (oks fails : List Nat) (fatal : Bool) : Rib
   else st
 
 def handleFlush (st : RibSt) (nis : List NI) (ok : Bool) : RibSt :=
-  let st := st.covr "flush"
+  let st := { st.covr "flush" with pendBeforeFlush := some st.implPend }
   let st := { st with spec := Spec.applyAck st.spec (.flushed nis) }
   let st := if nis.all (fun n => st.model.nis.contains n) ∧ st.model.nis.all (fun n => nis.contains n)
             then st else { st with partialFlush := true }
@@ -268,6 +270,16 @@ def unknownGrpNI (st : RibSt) (op : Op) : Bool :=
   op.key.isTop && op.pl.grpNI != "" && !(st.model.nis.contains op.pl.grpNI)
 
 def handleObsPend (st : RibSt) (ids : List Nat) : RibSt :=
+  -- C02 / C06 monitor: a flush removes entries, not obligations — an operation that was held when
+  -- the flush ran is still held afterwards (it has had no verdict, and it may yet become resolvable)
+  let st := match st.pendBeforeFlush with
+    | some before =>
+      let st := { st with pendBeforeFlush := none }
+      (match before.find? (fun id => !ids.contains id) with
+       | some id => (st.monfail "c02" s!"held operation {id} vanished at a flush: it was never answered and can no longer become resolvable").monfail "c06"
+           s!"unanswered: operation {id} was held, a flush dropped it, and it never received a result"
+       | none => st)
+    | none => st
   let st := { st with implPend := ids }
   -- C01 monitor: an operation answered FAILED is not kept by the server
   let st := if st.blind then st else
